@@ -71,8 +71,23 @@ asn1c_open_file(const char *destdir, const char *name, const char *ext,
 		 */
 		fd = open(fname, O_CREAT | O_EXCL | O_WRONLY, DEFFILEMODE);
 		if(fd == -1 && errno == EEXIST) {
-			fd = open(fname, O_WRONLY, DEFFILEMODE);
-			created = 0;
+#ifndef	_WIN32
+			if(lstat(fname, &sb) == 0 && S_ISLNK(sb.st_mode)) {
+				/*
+				 * A symbolic link is in the way: replace it, like
+				 * the per-type files and the skeleton copies do
+				 * (rename), instead of writing through it (or
+				 * failing on a dangling one).
+				 */
+				if(unlink(fname) == 0)
+					fd = open(fname, O_CREAT | O_EXCL | O_WRONLY,
+						DEFFILEMODE);
+			} else
+#endif
+			{
+				fd = open(fname, O_WRONLY, DEFFILEMODE);
+				created = 0;
+			}
 		}
 	}
 	if(fd == -1) {
